@@ -10,6 +10,8 @@ import (
 	"math/rand/v2"
 	"sync"
 	"sync/atomic"
+
+	"cuelang.org/go/internal/verifhook"
 )
 
 // Work manages a set of work items to be executed in parallel, at most once each.
@@ -38,6 +40,7 @@ func (w *Work[T]) Add(item T) {
 	if !w.added[item] {
 		w.added[item] = true
 		w.todo = append(w.todo, item)
+		verifhook.At("W_Add", item, len(w.todo), w.waiting)
 		if w.waiting > 0 {
 			w.wait.Signal()
 		}
@@ -68,6 +71,7 @@ func (w *Work[T]) Do(n int, f func(item T)) {
 		go w.runner()
 	}
 	w.runner()
+	verifhook.At("W_Return")
 }
 
 // runner executes work in w until both nothing is left to do
@@ -79,14 +83,17 @@ func (w *Work[T]) runner() {
 		w.mu.Lock()
 		for len(w.todo) == 0 {
 			w.waiting++
+			verifhook.At("W_WaitEnter", w.waiting, w.running)
 			if w.waiting == w.running {
 				// All done.
 				w.wait.Broadcast()
+				verifhook.At("W_AllDone")
 				w.mu.Unlock()
 				return
 			}
 			w.wait.Wait()
 			w.waiting--
+			verifhook.At("W_Wake", w.waiting, len(w.todo))
 		}
 
 		// Pick something to do at random,
@@ -97,6 +104,7 @@ func (w *Work[T]) runner() {
 		item := w.todo[i]
 		w.todo[i] = w.todo[len(w.todo)-1]
 		w.todo = w.todo[:len(w.todo)-1]
+		verifhook.At("W_Pick", item, len(w.todo))
 		w.mu.Unlock()
 
 		w.f(item)
